@@ -119,8 +119,19 @@ func (v *Verifier) ifaceModel(c *ssa.CallCommon) *Model {
 			x.trusted["interface contract "+full] = true
 			return x.applyIfaceContract(fr, st, fc, c, args, rt, pos)
 		}, writes: func(x *Exec, env *staticEnv, cc *ssa.CallCommon, m *modSet) {
-			if !fc.HasAssign || len(fc.Assigns) > 0 {
+			if !fc.HasAssign {
 				m.all = true
+				return
+			}
+			for _, pat := range fc.Assigns {
+				switch {
+				case strings.HasPrefix(pat, "g_"):
+					m.addComp("G:ghost."+pat, "Int")
+				case strings.HasPrefix(pat, "@"):
+					m.prefixes = append(m.prefixes, "S:"+x.resolveTypeKey(pat[1:]))
+				default:
+					m.all = true
+				}
 			}
 		}}
 	}
@@ -129,17 +140,30 @@ func (v *Verifier) ifaceModel(c *ssa.CallCommon) *Model {
 
 // applyIfaceContract: interface contracts may only have ensures over results and `pure`.
 func (x *Exec) applyIfaceContract(fr *Frame, st *State, fc *FuncContract, c *ssa.CallCommon, args []Val, rt types.Type, pos token.Pos) Val {
-	if !fc.HasAssign || len(fc.Assigns) > 0 {
-		x.havocAllMem(st)
-	}
 	sig := c.Method.Type().(*types.Signature)
+	old := st.clone()
+	if !fc.HasAssign {
+		x.havocAllMem(st)
+	} else {
+		henv := &Env{x: x, vars: map[string]Val{"recv": args[0]}, st: st, fn: fr.fn}
+		for i := 0; i < sig.Params().Len(); i++ {
+			if i+1 < len(args) {
+				henv.vars[sig.Params().At(i).Name()] = args[i+1]
+			}
+		}
+		for _, pat := range fc.Assigns {
+			if err := x.havocPattern(henv, st, pat); err != nil {
+				x.havocAllMem(st)
+			}
+		}
+	}
 	var results []Val
 	for i := 0; i < sig.Results().Len(); i++ {
 		v, f := x.freshVal("ir", sig.Results().At(i).Type())
 		x.assume(st, f)
 		results = append(results, v)
 	}
-	env := &Env{x: x, vars: map[string]Val{}, st: st, old: st, post: true, results: results, fn: fr.fn}
+	env := &Env{x: x, vars: map[string]Val{}, st: st, old: old, post: true, results: results, fn: fr.fn}
 	env.vars["recv"] = args[0]
 	for i := 0; i < sig.Params().Len(); i++ {
 		if i+1 < len(args) {
